@@ -89,6 +89,10 @@ pub struct Rec {
     pub equiv: bool,
     /// UnknownPathSecret for a credential id that a client really uses
     pub known_id: bool,
+    /// identity of the packet as its receiver parses it (forged copies: parsed from the forged bytes)
+    pub pkt: Option<PktId>,
+    /// stream packet whose packet number differs from its original one (retransmission / probe)
+    pub retx: bool,
     /// hash of the datagram bytes (0 for secret-control packets: their tag is derived from the
     /// server map's random stateless-reset signer, the only byte source without a seam)
     pub bytes_hash: u64,
@@ -107,6 +111,34 @@ pub struct Meta {
     pub is_retx: bool,
     pub is_fin: bool,
     pub is_probe: bool,
+    pub packet_number: u64,
+    pub stream_offset: u64,
+    pub control_data_len: usize,
+    pub total_len: usize,
+}
+
+/// What a receiver reports about a packet it rejected, as far as it identifies the packet:
+/// stream packets by (credential id, key id, queue id, packet number, stream offset, payload
+/// length, header length), control packets by (packet number, packet length, control data length)
+#[derive(Clone, Copy, Debug, PartialEq, Eq, PartialOrd, Ord, Hash)]
+pub struct PktId {
+    pub kind: u8,
+    pub cred: u128,
+    pub f: [u64; 6],
+}
+
+impl Meta {
+    pub fn pkt_id(&self) -> Option<PktId> {
+        match self.kind {
+            KIND_STREAM => Some(PktId {
+                kind: KIND_STREAM,
+                cred: u128::from_be_bytes(self.cred_id),
+                f: [self.key_id, self.queue_id.unwrap_or(u64::MAX), self.packet_number, self.stream_offset, self.payload_len as u64, self.header_len as u64],
+            }),
+            KIND_CONTROL => Some(PktId { kind: KIND_CONTROL, cred: 0, f: [self.packet_number, self.total_len as u64, self.control_data_len as u64, 0, 0, 0] }),
+            _ => None,
+        }
+    }
 }
 
 pub fn decode_meta(bytes: &[u8]) -> Meta {
@@ -129,6 +161,9 @@ pub fn decode_meta(bytes: &[u8]) -> Meta {
             m.is_retx = p.is_retransmission();
             m.is_fin = p.is_fin();
             m.is_probe = matches!(p.tag().packet_space(), dcp::stream::PacketSpace::Recovery);
+            m.packet_number = p.packet_number().as_u64();
+            m.stream_offset = p.stream_offset().as_u64();
+            m.total_len = p.total_len();
         }
         dcp::Packet::Control(p) => {
             m.kind = KIND_CONTROL;
@@ -137,6 +172,9 @@ pub fn decode_meta(bytes: &[u8]) -> Meta {
             m.queue_id = p.stream_id().map(|s| s.queue_id().as_u64());
             m.source_queue_id = p.source_queue_id().map(|v| v.as_u64());
             m.header_len = p.header().len();
+            m.packet_number = p.packet_number().as_u64();
+            m.control_data_len = p.control_data().len();
+            m.total_len = p.total_len();
         }
         dcp::Packet::Datagram(_) => {
             m.kind = KIND_DATAGRAM;
@@ -398,6 +436,8 @@ impl LinkState {
             first_flight: false,
             equiv: false,
             known_id: false,
+            pkt: meta.pkt_id(),
+            retx: meta.is_retx,
             bytes_hash: if (KIND_STALE_KEY..=KIND_UPS).contains(&meta.kind) { 0 } else { simkit::hash_bytes(&bytes) },
         };
         if dir == DIR_C2S && meta.kind <= KIND_CONTROL {
@@ -455,17 +495,18 @@ impl LinkState {
             }
         }
         let mut replaced = false;
-        let mut forged: Vec<(i64, Bytes, String, bool, u8, bool, bool)> = vec![];
+        let mut forged: Vec<(i64, Bytes, String, bool, u8, bool, bool, Option<PktId>)> = vec![];
         for f in &forges {
             if let Some((b, note, changed)) = self.mutate(&f.mutation, dir, &bytes, &meta) {
-                let k = decode_meta(&b).kind;
+                let fm = decode_meta(&b);
+                let k = fm.kind;
                 let equiv = changed && secret_control_equivalent(&bytes, &meta, &b, &f.mutation);
                 // bytes borrowed from a secret-control packet carry its (random) token
                 let tainted = match &f.mutation {
                     Mutation::TagOf(o) | Mutation::Splice(o) => self.pick_other(o, dir, &meta).map_or(false, |s| (KIND_STALE_KEY..=KIND_UPS).contains(&s.meta.kind)),
                     _ => false,
                 };
-                forged.push((f.skew_us, b, note, changed, k, equiv, tainted));
+                forged.push((f.skew_us, b, note, changed, k, equiv, tainted, fm.pkt_id()));
                 if f.replace {
                     replaced = true;
                 }
@@ -504,7 +545,7 @@ impl LinkState {
             }
         }
         if dropped.is_none() {
-            for (skew, b, note, changed, k, equiv, tainted) in forged {
+            for (skew, b, note, changed, k, equiv, tainted, fpkt) in forged {
                 let mut p = packet.clone();
                 *p.transport.payload_mut() = b.clone();
                 let idx = self.log.len();
@@ -513,6 +554,7 @@ impl LinkState {
                 r.label = LABEL_FORGED;
                 r.len = b.len() as u32;
                 r.kind = k;
+                r.pkt = fpkt;
                 r.bytes_hash = if tainted || (KIND_STALE_KEY..=KIND_UPS).contains(&k) || (KIND_STALE_KEY..=KIND_UPS).contains(&meta.kind) { 0 } else { simkit::hash_bytes(&b) };
                 r.note = Some(format!("{note}{}{}", if equiv { " (authenticated part identical)" } else { "" }, if changed { "" } else { " (no-op: identical bytes, counted as duplicate)" }));
                 r.equiv = equiv;
